@@ -4,6 +4,7 @@ import (
 	"regexp"
 	"sort"
 	"fmt"
+	"go/token"
 	"go/types"
 	"strings"
 
@@ -599,6 +600,19 @@ func callName(c *ssa.Call) []string {
 	}
 	if f, ok := c.Call.Value.(*ssa.Function); ok {
 		return []string{fnName(f), f.Name()}
+	}
+	// a call through a function-valued struct field (srv.MsgInvalidFunc(m, err)) goes by the field's name
+	switch v := c.Call.Value.(type) {
+	case *ssa.UnOp:
+		if fa, ok := v.X.(*ssa.FieldAddr); ok && v.Op == token.MUL {
+			if st, ok := derefType(fa.X.Type()).Underlying().(*types.Struct); ok {
+				return []string{st.Field(fa.Field).Name()}
+			}
+		}
+	case *ssa.Field:
+		if st, ok := v.X.Type().Underlying().(*types.Struct); ok {
+			return []string{st.Field(v.Field).Name()}
+		}
 	}
 	return nil
 }
